@@ -54,9 +54,20 @@ def impl_many(srcs, procs=None):
     return [x for c in out for x in c]
 
 
-def model_many(srcs):
+def _model_worker(srcs):
     d = Driver()
     return [canon_model(r) for r in d.batch([lex_request(s) for s in srcs])]
+
+
+def model_many(srcs, procs=None):
+    if len(srcs) < 4000:
+        return _model_worker(srcs)
+    procs = procs or min(16, mp.cpu_count())
+    n = max(1000, len(srcs) // (procs * 2))
+    chunks = [srcs[i:i + n] for i in range(0, len(srcs), n)]
+    with mp.Pool(procs) as pool:
+        out = pool.map(_model_worker, chunks)
+    return [x for c in out for x in c]
 
 
 def diff(impl, model):
@@ -97,9 +108,29 @@ LEXEMES = [
 ]
 
 
+INSIDE = ["a", "b", "0", " ", " ", "\t", "\t", "\\\n", "??/\n", "??<", "<:", "%>", "\\n", "\\\\", "\\\"", "\\'", "\\x41",
+          "\\0", "\\q", "\\\t", "*", "/", "?", "\n", ";", "{", "\"", "'", "é"]
+
+
+def inside_token(rng):
+    """a comment / string / character constant built from pieces that matter inside a token
+    (tabs, splices in both spellings, digraphs/trigraphs, escapes), followed by more tokens"""
+    kind = rng.choice(["/*", "/*", "//", '"', '"', "'"])
+    body = "".join(rng.choice(INSIDE) for _ in range(rng.randint(0, 8)))
+    close = {"/*": "*/", "//": "\n", '"': '"', "'": "'"}[kind]
+    if rng.random() < 0.15:
+        close = ""
+    pre = rng.choice(["", "", "\t", "x ", "\n", "a\t"])
+    post = rng.choice(["", " x", "\tx;", "\n\ty", " @"])
+    return pre + kind + body + close + post
+
+
 def sampled(rng, n, maxlex=12):
     out = []
     for _ in range(n):
+        if rng.random() < 0.35:
+            out.append(inside_token(rng))
+            continue
         k = rng.randint(1, maxlex)
         out.append("".join(rng.choice(LEXEMES) for _ in range(k)))
     return out
@@ -125,3 +156,30 @@ def visual_positions(src):
             col += 1
     pos.append((line, col))
     return pos
+
+
+def shrink(src, pred, budget=400):
+    """ddmin-style character deletion keeping `pred` true."""
+    cur = src
+    n = 2
+    calls = 0
+    while len(cur) >= 2 and calls < budget:
+        chunk = max(1, len(cur) // n)
+        reduced = False
+        for i in range(0, len(cur), chunk):
+            cand = cur[:i] + cur[i + chunk:]
+            calls += 1
+            try:
+                ok = pred(cand)
+            except Exception:
+                ok = False
+            if ok:
+                cur = cand
+                n = max(n - 1, 2)
+                reduced = True
+                break
+        if not reduced:
+            if chunk == 1:
+                break
+            n = min(len(cur), n * 2)
+    return cur
